@@ -297,7 +297,9 @@ def replay(ctx, rep):
             request['only'] = None
         res = ctx.impl('c12b_impl', request, timeout=2400)
         found = (res.get(part) or {}).get('findings', [])
-        same = [f for f in found if f['clause'] == rep['signature']['clause'] and f['op'] == rep['signature']['op']]
+        sig = rep['signature']
+        same = [f for f in found if f['clause'] == sig['clause'] and f['op'] == sig['op']
+                and f.get('kind', '') == sig.get('kind', '')]
         print(json.dumps({'request': request, 'findings_with_this_signature': same[:3],
                           'all_finding_counts': (res.get(part) or {}).get('finding_counts', res)}, indent=1)[:6000])
         return 1 if same else 0
